@@ -24,3 +24,30 @@ Theorem C17_ifdef_keeps_lines_in_place : forall cls lines st,
   forall n, nth n (run cls st lines) [] = nth n lines [] \/ nth n (run cls st lines) [] = [].
 Proof. intros. split; [apply ifdef_keeps_line_count|intros n; apply ifdef_lines_in_place]. Qed.
 Print Assumptions C17_ifdef_keeps_lines_in_place.
+
+(* ---- what a diagnostic of the type checker is attached to (Model/Preproc.v) ------------------------------- *)
+From Coq Require Import String.
+From Hera.Lib Require Import Py.
+From Hera.Gen Require Import Ops Tables.
+From Hera.Model Require Import OpRep Preproc.
+From Hera.Proofs Require Import C17_Attach.
+
+(* an operand fault is reported on that operand's token; a wrong operand count on the operation *)
+Theorem C17_typecheck_attachment : forall o st m, In m (default_typecheck o st) ->
+  (m_loc m = LocOp /\ zlen (P_of (o_cls o)) <> zlen (o_toks o)) \/
+  (exists k, m_loc m = LocTok k /\ (k < List.length (o_toks o))%nat).
+Proof. exact typecheck_attachment. Qed.
+Print Assumptions C17_typecheck_attachment.
+
+Theorem C17_operand_faults_on_operands : forall ps ts st i m, In m (check_arglist ps ts st i) ->
+  exists k e, (k < List.length ts)%nat /\ (k < List.length ps)%nat /\
+    check_arg (nth k ps P_REGISTER) (nth k ts dummy_tok) st = Some e /\
+    m = argerr_msg e (i + k) /\ m_loc m = LocTok (i + k).
+Proof. exact operand_faults_on_operands. Qed.
+Print Assumptions C17_operand_faults_on_operands.
+
+Theorem C17_faulty_operand_is_reported : forall ps ts st i k e, (k < List.length ts)%nat -> (k < List.length ps)%nat ->
+  check_arg (nth k ps P_REGISTER) (nth k ts dummy_tok) st = Some e ->
+  In (argerr_msg e (i + k)) (check_arglist ps ts st i).
+Proof. exact faulty_operand_is_reported. Qed.
+Print Assumptions C17_faulty_operand_is_reported.
